@@ -17,8 +17,8 @@ def gen_user_case(rng, tier, cyclic=False):
     spec = plans.gen_spec(rng, nmax=8 if tier == "quick" else 14, cyclic=cyclic)
     ids = [nd["id"] for nd in spec["nodes"]]
     calls = [nd["id"] for nd in spec["nodes"] if nd["kind"] == "call"]
-    k = rng.choice([0, 1, 1, 2, 3])
-    out = rng.sample(ids, min(k, len(ids))) if rng.random() < 0.85 else None
+    k = rng.choice([0, 1, 2, 2, 3, 4])
+    out = rng.sample(ids, min(k, len(ids))) if rng.random() < 0.9 else None
     nf = rng.choice([0, 0, 0, 1, 2]) if not cyclic else 0
     failing = {i: rng.choice(list(plans.EXC)) for i in rng.sample(calls, min(nf, len(calls)))}
     return {"spec": spec, "output": out, "workers": rng.choice([1, 2, 3, len(ids) + 2]),
